@@ -285,6 +285,48 @@ fn run(ctx: &Ctx) {
         Case { input: B(input), cfg, cuts, pend, clear }
     });
     ctx.run_proptest("soup-x-random-schedules", ctx.tier.pick(2_000_000, 12_000_000), strat, check);
+    // offset and length sweep (see gen.rs): fixed piece sizes around the block sizes, and cuts at
+    // and next to the boundaries of the construct
+    let (pmax, qmax) = ctx.tier.pick((100u64, 50u64), (200, 100));
+    ctx.run_indexed(
+        "offset-and-length-sweep-x-schedules",
+        gen::sweep_count(pmax, qmax, 1) * 3,
+        |i| {
+            let input = gen::sweep_nth(i / 3, pmax, qmax, 1);
+            let mut r = rot(seed, "c02-sweep", i);
+            let n = input.len();
+            let cuts = match i % 3 {
+                0 => crate::sources::cuts_fixed([1usize, 2, 3, 5, 7, 8, 15, 16, 17, 31, 32, 33, 64][r.below(13) as usize], n),
+                1 => {
+                    // around the construct: its start is at the end of the prefix
+                    let p = ((i / 3) / (qmax + 1)) % (pmax + 1);
+                    let p = p as usize;
+                    vec![p.saturating_sub(1), p, p + 1, p + 2, p + 4, p + 9, n.saturating_sub(6), n.saturating_sub(5), n.saturating_sub(4), n.saturating_sub(3), n.saturating_sub(2), n.saturating_sub(1)]
+                }
+                _ => (0..4).map(|_| r.below(n as u64 + 1) as usize).collect(),
+            };
+            let cfg = if r.chance(1, 4) { NEUTRAL } else { (r.next() & 127) as u8 };
+            let pend = (0..4).map(|_| r.below(3) as u8).collect();
+            Some(Case { cuts, input: B(input), cfg, pend, clear: r.chance(3, 4) })
+        },
+        check,
+    );
+    ctx.run_indexed(
+        "large-inputs-x-piece-sizes",
+        gen::big_count() * 3,
+        |i| {
+            let input = gen::big_nth(i / 3);
+            let mut r = rot(seed, "c02-big", i);
+            let n = input.len();
+            let cuts = match i % 3 {
+                0 => crate::sources::cuts_fixed([7usize, 64, 100, 4096, 8192][r.below(5) as usize], n),
+                1 => (0..6).map(|_| r.below(n as u64 + 1) as usize).collect(),
+                _ => vec![255, 256, 257, 4095, 4096, 4097, 8191, 8192, 8193, 65535, 65536, 65537],
+            };
+            Some(Case { cuts, input: B(input), cfg: (r.next() & 127) as u8, pend: vec![0, 1], clear: r.chance(3, 4) })
+        },
+        check,
+    );
 }
 
 fn replay(_stage: &str, case: &Value) -> Result<Verdict, String> {
